@@ -146,6 +146,18 @@ class SymArray:
             osym = o.dtype if isinstance(o, SymArray) else None
             if isinstance(o, (float, SymReal)) or osym in ("float64", "float32"):
                 dt = "float64"
+        f0 = f
+
+        def f(a, b):
+            # a non-finite float (a point the coordinate transformer could not map) meeting a
+            # symbolic value stays non-finite: NaN (the sign of an infinity is not tracked; the
+            # library filters such points with isfinite)
+            if isinstance(a, float) and not math.isfinite(a) and isinstance(b, Sym):
+                return float("nan")
+            if isinstance(b, float) and not math.isfinite(b) and isinstance(a, Sym):
+                return float("nan")
+            return f0(a, b)
+
         r = self._zip(o, f, dt)
         if dt == "int32":
             r = r._map(lambda v: wrap_bits(v, 32))
